@@ -209,6 +209,47 @@ def r16_3(ctx, rep):
            path=cfg.describe(bad) if bad else "")
 
 
+@SPEC.rule(
+    "R16.4",
+    "an alias's bounds, nominal and fixed flag are merged whatever their values: where an update of the min / max / nominal / "
+    "fixed accumulator is guarded by a test on the alias's own attributes, the guard looks at every attribute the update reads — "
+    "for x = -y the new minimum comes from y's max, so a guard that skips the update `when y.min is unbounded` drops a finite "
+    "-y.max and the canonical variable ends up with a wider range than the intersection",
+)
+def r16_4(ctx, rep):
+    from ..pyutil import inlined
+    R = "R16.4"
+    outer, inner, cst, ast_ = _merge_loops(ctx, R)
+    acc = _accumulators(outer, inner, cst)
+    cfg = CFG(ast.Module(body=[inner], type_ignores=[]), R)
+    body = [st for st in ast.walk(inner) if isinstance(st, ast.stmt)]
+
+    def alias_attrs(e):
+        e = inlined(e, body, keep={ast_, cst} | set(acc.values()))
+        return {x.attr for x in ast.walk(e) if isinstance(x, ast.Attribute) and is_name(x.value, ast_) and x.attr in ATTRS}
+
+    n = 0
+    for a in ("min", "max", "nominal", "fixed"):
+        v = acc.get(a)
+        if v is None:
+            continue
+        for x in cfg.stmts():
+            if not (isinstance(x.ast, (ast.Assign, ast.AugAssign)) and any(is_name(t, v) for t in (x.ast.targets if isinstance(x.ast, ast.Assign) else [x.ast.target]))):
+                continue
+            reads = alias_attrs(x.ast.value)
+            if not reads:
+                continue
+            n += 1
+            guards = [g for g in cfg.dominated_by(x.id, lambda y: y.kind == "assume") if alias_attrs(g.ast)]
+            partial = [g for g in guards if reads - alias_attrs(g.ast)]
+            rep.ob(R, SITE, "%s update `%s` is not skipped on part of what it reads" % (a, norm(x.ast)[:50]), not partial,
+                   "the update reads %s.{%s} but runs only when `%s` holds, a test that looks at %s.{%s} alone: for one of the two signs the bound that "
+                   "would have tightened the range is never looked at" % (ast_, ", ".join(sorted(reads)), partial[0].text()[:80] if partial else "",
+                                                                         ast_, ", ".join(sorted(alias_attrs(partial[0].ast))) if partial else ""))
+    if n < 4:
+        raise MechanismMissing(R, "expected updates of the min, max, nominal and fixed accumulators from the alias's attributes, found %d" % n)
+
+
 # -- seeded variants ---------------------------------------------------------
 from ._mut import delete_stmt_where, replace_in_func  # noqa: E402
 
@@ -256,6 +297,22 @@ def _m5(mod):
             if isinstance(n, ast.Assign) and norm(n).startswith("nominal = ca.fmax(nominal, alias_state.nominal"):
                 n.value = ast.parse("ca.fmax(nominal, sign * alias_state.nominal)", mode="eval").body
                 return True
+        return False
+
+    return mod if replace_in_func(mod, "Model._simplify_once", edit) else None
+
+
+@SPEC.mutant("minimum update skipped when the alias has no lower bound", MODEL, "R16.4", "not skipped on part")
+def _m_skip_unbounded(mod):
+    def edit(fn):
+        for n in ast.walk(fn):
+            for f in ("body", "orelse"):
+                lst = getattr(n, f, None)
+                if isinstance(lst, list):
+                    for i, st in enumerate(lst):
+                        if isinstance(st, ast.Assign) and norm(st).startswith("m = ca.fmax(m, alias_state.min if sign == 1"):
+                            lst[i] = ast.If(test=ast.parse("np.isfinite(alias_state.min)", mode="eval").body, body=[st], orelse=[])
+                            return True
         return False
 
     return mod if replace_in_func(mod, "Model._simplify_once", edit) else None
